@@ -131,8 +131,9 @@ func (m *OddPrimeFactors) ModExpI(out, base *numct.Nat, exp *numct.Int) {
 
 // ModDiv computes out = (a / b) mod n.
 func (m *OddPrimeFactors) ModDiv(out, a, b *numct.Nat) ct.Bool {
-	ok := m.ModInv(out, b)
-	m.ModMul(out, a, out)
+	var bInv numct.Nat // out may alias a
+	ok := m.ModInv(&bInv, b)
+	m.ModMul(out, a, &bInv)
 	return ok
 }
 
